@@ -11,16 +11,16 @@ import Tw.Proofs.SnapDelta
 
 namespace Tw.Snap
 
-/-- every non-registry item has the size of its type -/
-def Sized (size : TypeId → Nat) (s : Snap) : Prop :=
+/-- every non-registry item has the size the application fixed for its `(type, id)` -/
+def Sized (size : TypeId → Nat → Nat) (s : Snap) : Prop :=
   ∀ p, p ∈ s.raw.items →
-    (0 < keyType p.1 → keyType p.1 < offsetExt → p.2.length = size (.ordinal (keyType p.1))) ∧
-    (∀ u, mfind u s.ext = some (keyType p.1) → p.2.length = size (.uuid u))
+    (0 < keyType p.1 → keyType p.1 < offsetExt → p.2.length = size (.ordinal (keyType p.1)) (keyId p.1)) ∧
+    (∀ u, mfind u s.ext = some (keyType p.1) → p.2.length = size (.uuid u) (keyId p.1))
 
 /-- `b` knows every UUID type of `a` under the same number -/
 def ExtLe (a b : Snap) : Prop := ∀ u t, mfind u a.ext = some t → mfind u b.ext = some t
 
-theorem sizesAgree_of_sized {size : TypeId → Nat} {a b : Builder} (ha : a.Inv) (hb : b.Inv)
+theorem sizesAgree_of_sized {size : TypeId → Nat → Nat} {a b : Builder} (ha : a.Inv) (hb : b.Inv)
     (hsa : Sized size a.snap) (hsb : Sized size b.snap) (hle : ExtLe a.snap b.snap) :
     SizesAgree a.snap.raw b.snap.raw := by
   intro p hp
@@ -42,17 +42,17 @@ theorem sizesAgree_of_sized {size : TypeId → Nat} {a b : Builder} (ha : a.Inv)
         · simp only at hu
           rw [(hsa _ hmem).2 u hu, (hsb p hp).2 u (hle u _ hu)]
 
-theorem sized_minsert {size : TypeId → Nat} {m : Items} {ext : List (Int × Nat)} {k : Int}
+theorem sized_minsert {size : TypeId → Nat → Nat} {m : Items} {ext : List (Int × Nat)} {k : Int}
     {d : List Int} (hs : Sized size ⟨⟨m⟩, ext⟩)
-    (h1 : 0 < keyType k → keyType k < offsetExt → d.length = size (.ordinal (keyType k)))
-    (h2 : ∀ u, mfind u ext = some (keyType k) → d.length = size (.uuid u)) :
+    (h1 : 0 < keyType k → keyType k < offsetExt → d.length = size (.ordinal (keyType k)) (keyId k))
+    (h2 : ∀ u, mfind u ext = some (keyType k) → d.length = size (.uuid u) (keyId k)) :
     Sized size ⟨⟨minsert k d m⟩, ext⟩ := by
   intro p hp
   rcases mem_minsert hp with rfl | hp'
   · exact ⟨h1, h2⟩
   · exact hs p hp'
 
-theorem sized_ext_insert {size : TypeId → Nat} {raw : RawSnap} {ext : List (Int × Nat)} {u : Int}
+theorem sized_ext_insert {size : TypeId → Nat → Nat} {raw : RawSnap} {ext : List (Int × Nat)} {u : Int}
     {t : Nat} (hs : Sized size ⟨raw, ext⟩) (hfresh : ∀ p, p ∈ raw.items → keyType p.1 ≠ t) :
     Sized size ⟨raw, minsert u t ext⟩ := by
   intro p hp
@@ -70,9 +70,9 @@ theorem extLe_trans {a b c : Snap} (h1 : ExtLe a b) (h2 : ExtLe b c) : ExtLe a c
   fun u t h => h2 u t (h1 u t h)
 
 /-- one `add_item` whose data has the size of its type -/
-theorem addItem_sized {size : TypeId → Nat} {b b' : Builder} {tid : TypeId} {id : Nat}
+theorem addItem_sized {size : TypeId → Nat → Nat} {b b' : Builder} {tid : TypeId} {id : Nat}
     {data : List Int} {r : Option BuilderError} (hb : b.Inv) (hs : Sized size b.snap)
-    (hid : id < 65536) (hlen : data.length = size tid)
+    (hid : id < 65536) (hlen : data.length = size tid id)
     (h : b.addItem tid id data = some (b', r)) :
     Sized size b'.snap ∧ ExtLe b.snap b'.snap := by
   obtain ⟨hnr1, hnr2⟩ := hb.next_range
@@ -97,9 +97,10 @@ theorem addItem_sized {size : TypeId → Nat} {b b' : Builder} {tid : TypeId} {i
       obtain ⟨hitems, _⟩ := addItem_ok hadd
       refine ⟨?_, extLe_refl _⟩
       have hkt : keyType (keyOf o id) = o := keyType_keyOf ho' hid
+      have hki : keyId (keyOf o id) = id := keyId_keyOf ho' hid
       have : Sized size ⟨⟨minsert (keyOf o id) data b.snap.raw.items⟩, b.snap.ext⟩ := by
         apply sized_minsert hsb
-        · intro _ _; rw [hkt]; exact hlen
+        · intro _ _; rw [hkt, hki]; exact hlen
         · intro u hu
           rw [hkt] at hu
           have := (hb.ext_range u o hu).1
@@ -115,6 +116,7 @@ theorem addItem_sized {size : TypeId → Nat} {b b' : Builder} {tid : TypeId} {i
       simp only [hf] at h
       have ht : t < 65536 := (hb.ok.ext_reg u t hf).2.1
       have hkt : keyType (keyOf t id) = t := keyType_keyOf ht hid
+      have hki : keyId (keyOf t id) = id := keyId_keyOf ht hid
       cases hadd : b.snap.raw.addItem (keyOf t id) data with
       | error e =>
         simp only [hadd, Option.some.injEq, Prod.mk.injEq] at h
@@ -136,7 +138,7 @@ theorem addItem_sized {size : TypeId → Nat} {b b' : Builder} {tid : TypeId} {i
               obtain ⟨a3, _, a4⟩ := hb.ok.ext_reg u t hf
               rw [a2] at a4
               exact uuidToData_inj a1 a3 (Option.some.inj a4)
-            rw [this]; exact hlen
+            rw [this, hki]; exact hlen
         intro p hp
         simp only at hp
         rw [hitems] at hp
@@ -204,6 +206,7 @@ theorem addItem_sized {size : TypeId → Nat} {b b' : Builder} {tid : TypeId} {i
           obtain ⟨hitems2, _⟩ := addItem_ok hadd2
           refine ⟨?_, hle1⟩
           have hkt : keyType (keyOf b.nextTypeId id) = b.nextTypeId := keyType_keyOf ht hid
+          have hki : keyId (keyOf b.nextTypeId id) = id := keyId_keyOf ht hid
           have hs1'' : Sized size ⟨⟨raw1.items⟩, minsert u b.nextTypeId b.snap.ext⟩ := hs1'
           have : Sized size ⟨⟨minsert (keyOf b.nextTypeId id) data raw1.items⟩,
               minsert u b.nextTypeId b.snap.ext⟩ := by
@@ -213,7 +216,7 @@ theorem addItem_sized {size : TypeId → Nat} {b b' : Builder} {tid : TypeId} {i
               rw [hkt] at hu'
               simp only [mfind_minsert] at hu'
               split at hu'
-              · rename_i e; rw [e]; exact hlen
+              · rename_i e; rw [e, hki]; exact hlen
               · have := (hb.ext_range u' _ hu').2; omega
           intro p hp
           simp only at hp
@@ -248,7 +251,7 @@ theorem recycleAdd_items : ∀ (ext : List (Int × Nat)) (raw raw' : RawSnap),
       · exact Or.inr ⟨q, List.mem_cons_of_mem _ hq, hk⟩
 
 /-- `recycle` keeps the numbering and leaves only registry items -/
-theorem recycle_sized {size : TypeId → Nat} {b b' : Builder} (hb : b.Inv)
+theorem recycle_sized {size : TypeId → Nat → Nat} {b b' : Builder} (hb : b.Inv)
     (h : b.snap.recycle = some b') :
     b'.Inv ∧ Sized size b'.snap ∧ ExtLe b.snap b'.snap := by
   obtain ⟨b'', h1, hinv, hext, _⟩ := Builder.recycle_inv hb
@@ -289,17 +292,17 @@ theorem recycle_sized {size : TypeId → Nat} {b b' : Builder} (hb : b.Inv)
 
 /-- one step of the application: an item whose size is the size of its type, or continuing with
 the recycled snapshot -/
-inductive Step (size : TypeId → Nat) : Builder → Builder → Prop
+inductive Step (size : TypeId → Nat → Nat) : Builder → Builder → Prop
   | add {b b' : Builder} {tid : TypeId} {id : Nat} {data : List Int} {r : Option BuilderError} :
-      tid.Valid → id < 65536 → (∀ x ∈ data, I32 x) → data.length = size tid →
+      tid.Valid → id < 65536 → (∀ x ∈ data, I32 x) → data.length = size tid id →
       b.addItem tid id data = some (b', r) → Step size b b'
   | recycle {b b' : Builder} : b.snap.recycle = some b' → Step size b b'
 
-inductive Chain (size : TypeId → Nat) : Builder → Builder → Prop
+inductive Chain (size : TypeId → Nat → Nat) : Builder → Builder → Prop
   | refl (b : Builder) : Chain size b b
   | tail {a b c : Builder} : Chain size a b → Step size b c → Chain size a c
 
-theorem chain_inv {size : TypeId → Nat} {a b : Builder} (h : Chain size a b) (ha : a.Inv)
+theorem chain_inv {size : TypeId → Nat → Nat} {a b : Builder} (h : Chain size a b) (ha : a.Inv)
     (hs : Sized size a.snap) : b.Inv ∧ Sized size b.snap ∧ ExtLe a.snap b.snap := by
   induction h with
   | refl => exact ⟨ha, hs, extLe_refl _⟩
@@ -313,12 +316,12 @@ theorem chain_inv {size : TypeId → Nat} {a b : Builder} (h : Chain size a b) (
       obtain ⟨i', s', le'⟩ := recycle_sized (size := size) hbi hr
       exact ⟨i', s', extLe_trans hle le'⟩
 
-theorem sized_new (size : TypeId → Nat) : Sized size Builder.new.snap := by
+theorem sized_new (size : TypeId → Nat → Nat) : Sized size Builder.new.snap := by
   intro p hp; simp [Builder.new, Snap.empty, RawSnap.empty] at hp
 
 /-- Any two snapshots along a chain of builders that starts with `Builder::new()` have agreeing
 raw item sizes, so `Delta::create` from the earlier to the later one does not panic. -/
-theorem chain_create {size : TypeId → Nat} {a b : Builder} (h0 : Chain size Builder.new a)
+theorem chain_create {size : TypeId → Nat → Nat} {a b : Builder} (h0 : Chain size Builder.new a)
     (h1 : Chain size a b) :
     SizesAgree a.snap.raw b.snap.raw ∧ ∃ d, createDelta a.snap.raw b.snap.raw = some d := by
   obtain ⟨hai, has, _⟩ := chain_inv h0 Builder.new_inv (sized_new size)
